@@ -278,6 +278,17 @@ def run(chk):
         chk.check(v in ("bytearray(data)", "bytes(data)", "data"), "R6", f"{NET}:PeriodicMessageTask.update | new payload", up.loc(s_.ast), f"msg.data = {v}")
     for a in [n for n in fu.cfg.nodes if node_calls(n, "self._start")]:
         wit = must_pass(fu.cfg, lambda n: node_calls(n, "_task.stop"), to_nodes=[a])
+        if wit is not None:
+            # the stop may be the callee's business: _start() itself stops a live task before it creates the next one
+            stf = repo.func(NET, "PeriodicMessageTask._start", "C17.R6")
+            fst = ff_for(chk, stf, "C17.R6")
+            news = [n for n in fst.cfg.nodes if n.kind == "stmt" and isinstance(n.ast, ast.Assign) and dotted(n.ast.targets[0]) == "self._task" and find_calls(n.ast.value, ".send_periodic")]
+
+            def _dead(n, lab):
+                t_ = src(n.ast) if n.kind == "test" else ""
+                return (t_ in ("self._task is not None", "self._task") and lab == "F") or (t_ in ("self._task is None", "not self._task") and lab == "T")
+            if news and all(must_pass(fst.cfg, lambda n: node_calls(n, "_task.stop"), to_nodes=[nw], skip_edge=_dead) is None for nw in news):
+                wit = None
         chk.check(wit is None, "R6", f"{NET}:PeriodicMessageTask.update | stop before restart", up.loc(a.ast), f"{path_text(wit) if wit else ''}")
     # both code paths of the update logic: in-place modification when the bus task supports it, otherwise restart when the data changed
     for a in [n for n in fu.cfg.nodes if node_calls(n, ".modify_data")]:
